@@ -146,6 +146,12 @@ def schedule {α : Type} (D : Dom α) (coll algo : String) (np root c m : Nat) :
   | "allgather", "ring" =>
     let bufs := ranks.map fun r => pat D r C
     some (ranks.map fun r => (allSome (allgatherRing bufs r)).map List.flatten)
+  | "allreduce", "lr" =>          -- only for counts that are a positive multiple of np (see `hasSchedule`)
+    if np = 0 then none else
+    let blk := C / np
+    let blocks := ranks.map fun r => chunks blk np (pat D r C)
+    let x := fun r b => (blocks.getD r []).getD b []
+    some (ranks.map fun r => (allSome (ranks.map (allreduceLr (zipOp D.op) x np r))).map List.flatten)
   | "alltoall", "pair" =>
     let blocks := ranks.map fun r => chunks C np (pat D r (np * C))
     allSome (ranks.map fun r => (alltoallPair blocks r).map fun slots => (allSome slots).map List.flatten)
@@ -153,9 +159,11 @@ def schedule {α : Type} (D : Dom α) (coll algo : String) (np root c m : Nat) :
 
 /-- is the schedule model of this (collective, algorithm) applicable to the case?  (`nb` = the non-blocking `MPI_I…`
 variant, which never runs the selected algorithm) -/
-def hasSchedule (coll algo : String) (nb : Bool) : Bool :=
-  !nb && (coll, algo) ∈ [("bcast", "binomial_tree"), ("bcast", "default"), ("allreduce", "rdb"), ("allgather", "ring"),
-    ("alltoall", "pair"), ("reduce", "flat_tree"), ("reduce", "binomial")]
+def hasSchedule (coll algo : String) (nb : Bool) (np c : Nat) : Bool :=
+  !nb && ((coll, algo) ∈ [("bcast", "binomial_tree"), ("bcast", "default"), ("allreduce", "rdb"), ("allgather", "ring"),
+    ("alltoall", "pair"), ("reduce", "flat_tree"), ("reduce", "binomial")] ||
+    -- allreduce-lr.cpp hands counts < np and the remainder of counts that np does not divide to other algorithms
+    ((coll, algo) == ("allreduce", "lr") && np != 0 && c >= np && c % np == 0))
 
 def firstDiff : Nat → List (List String) → List (List String) → Option (Nat × List String × List String)
   | _, [], [] => none
@@ -173,7 +181,7 @@ def judgeWith {α : Type} (D : Dom α) (coll algo : String) (nb : Bool) (np root
     | some (r, e, i) =>
       .monfail s!"rank {r}: receive buffer differs from the MPI result: expected [{" ".intercalate (e.take 24)}] got [{" ".intercalate (i.take 24)}]"
     | none =>
-      if hasSchedule coll algo nb then
+      if hasSchedule coll algo nb np c then
         match schedule D coll algo np root c m with
         | none => .disagree "schedule-model-refuses"
         | some sres => if sres.map (renderRank D) = impl then .ok else .disagree "schedule-model-differs"
